@@ -41,6 +41,8 @@ def run(ctx):
     ctx.guarded('R19e', 'names', lambda: r19e(ctx))
     ctx.rule('R19f', 'the chunk cache\'s restart scan skips a directory entry whose name is not a cache item name (a leftover temporary file of an interrupted put) instead of failing: the name-parse error is inspected by a match whose Err arm can end in Ok(None), never by `?`')
     ctx.guarded('R19f', SCAN, lambda: r19f(ctx))
+    ctx.rule('R19g', 'a temporary file left behind by an interrupted process is never continued: every temporary name SafeFileCreator generates carries a random component, or the file is opened truncating / create-new')
+    ctx.guarded('R19g', 'file_utils::safe_file_creator::SafeFileCreator::temp_file_path', lambda: r19g(ctx))
 
 
 def _alias(ctx, frm, to):
@@ -310,3 +312,51 @@ def r19f(ctx):
         some = [(b, si) for (b, si, k, e) in rets if b in r and k == 'ok' and not (e[0] == 'agg' and e[3] and e[3][0][1][0] == 'agg' and e[3][0][1][2].endswith('Option::None'))]
         ctx.check(bool(err_t) and bool(skip) and not some, 'R19f', fn, 'skipped', a.loc(cb), 'where the name does not parse the entry is skipped: the Err arm returns Ok(None) (possibly after removing the file)',
                   'no path from the name-parse failure ends in Ok(None): a leftover file is not skipped')
+
+
+def r19g(ctx):
+    """C19e: temp names from a process-wide counter restart at 0 after a crash, and create_file opens without truncating:
+    the next process writes a shorter file into the leftover of the crashed one and renames old tail + new content under
+    the final name.  Accepted: every name temp_file_path can return is built from a value drawn from `rand` (uuid), or the
+    opening used by SafeFileCreator truncates (truncate(true) / create_new(true) / File::create / set_len(0))."""
+    F = ctx.F
+    TP = 'file_utils::safe_file_creator::SafeFileCreator::temp_file_path'
+    a = an(F.body(TP))
+    is_rand = lambda z: z[0] == 'call' and (sg(z[1]).startswith('rand::') or sg(z[1]).startswith('uuid::') or '::rand::' in sg(z[1]) or sg(z[1]).startswith('rand_core::') or sg(z[1]).startswith('getrandom::'))
+    names = []
+    for (b, si, k, e) in a.ret_sites():
+        for (sb, ssi, se) in a.flow.sources(e, (b, si)):
+            rc = se
+            # Path::join(dir, NAME) / PathBuf::push
+            if rc[0] == 'call' and sg(rc[1]).split('::')[-1] in ('join', 'with_file_name', 'with_extension') and len(rc[2]) == 2:
+                nm = rc[2][1]
+                for (nb, nsi, ne) in a.flow.sources(nm, (sb, ssi)):
+                    names.append(((nb if nb is not None else (sb if sb is not None else b)), ne))
+            else:
+                names.append(((sb if sb is not None else b), se))
+    random_all = bool(names) and all(flow.mentions(ne, is_rand) for (_, ne) in names)
+    if random_all:
+        ctx.check(True, 'R19g', TP, 'random name', a.loc(names[0][0]), 'every temporary name (%d form(s)) contains a value drawn from a random generator: a leftover of an interrupted process is not reopened' % len(names))
+        ctx.floor('R19g', 'temporary name forms', len(names), 2)
+        return
+    # otherwise the opening must discard old contents
+    trunc = []
+    for p_, b_ in sorted(F.bodies.items()):
+        if not (p_.startswith('file_utils::privilege_context::PrivilgedExecutionContext::create_file') or p_.startswith('file_utils::safe_file_creator::SafeFileCreator::new')):
+            continue
+        x = an(b_)
+        for c in x.calls():
+            fn = sg(x.term(c).get('fn', ''))
+            last = fn.split('::')[-1]
+            if fn.endswith('OpenOptions::truncate') or fn.endswith('OpenOptions::create_new'):
+                v = x.arg(c, 1)
+                if v[:2] == ('const', 1):
+                    trunc.append((x, c))
+            elif fn.endswith('fs::File::create') or fn.endswith('fs::File::create_new'):
+                trunc.append((x, c))
+            elif last == 'set_len' and x.arg(c, 1)[:2] == ('const', 0):
+                trunc.append((x, c))
+    bad = [ne for (_, ne) in names if not flow.mentions(ne, is_rand)]
+    ctx.check(bool(trunc), 'R19g', TP, 'predictable temporary name reopened', a.loc(names[0][0]) if names else '-',
+              'temporary names are predictable but the file is opened truncating / create-new (%d site(s))' % len(trunc),
+              'a temporary name without a random component (%s) is opened with create(true).truncate(false): after an interrupted write a later process reuses the leftover file and renames its stale tail under a final name' % (flow.show(bad[0])[:90] if bad else 'no name form found'))
